@@ -209,7 +209,7 @@ def scenarios(root):
 
 QUICK = ["jobdoc-absent-to-small", "jobdoc-small-to-big", "jobdoc-reset", "job-clear-fresh-handle", "projectdoc-update",
          "projectdoc-first-access-assignment", "buffered-flush-two-docs", "cache-first-write", "cache-growing", "cache-shrinking",
-         "cache-unchanged", "cache-growing-after-crash-stray-complete", "cache-growing-after-crash-stray-torn", "jobdoc-assign-other-jobs-document"]
+         "cache-unchanged", "cache-growing-after-crash-stray-complete", "cache-growing-after-crash-stray-torn", "jobdoc-assign-other-jobs-document", "cache-many-jobs-multi-buffer"]
 # document scenarios that are also run with synced_collections' thread-lock mode switched off: there the library writes a
 # file atomically only if the collection was created with write_concern=True (which is what signac must ask for)
 NOLOCK = ["jobdoc-absent-to-small", "jobdoc-small-to-big", "jobdoc-reset", "job-clear-fresh-handle", "projectdoc-update",
